@@ -282,9 +282,8 @@ where
         let mut filtered_kmers = Vec::new();
         let mut removed = 0;
 
-        if filter_ambig_as_missing {
-            self.update_counts(true);
-        }
+        // Counts loaded from a file may have been made with either setting
+        self.update_counts(filter_ambig_as_missing);
 
         for count_it in self
             .variant_count
